@@ -293,7 +293,7 @@ theorem symStep_good {u : E3.FUniverse} (hw : WFU u.base) (b : Bool) (σ x l : N
     obtain ⟨e1, l1, l2, l3, l4, l5, l8⟩ := labelRule_spec acc.1 x l r s1 start ends hlr hl
     have h1 : Good u s0 s1 := h.grow l3 e1 l4 (l5 h.1.nd) (l8 u.base h.1.cache)
     have hs := Labs.single l2 (hw.sym σ hσ x r hr)
-    have hc1 := Labs.head l2 (hw.sym σ hσ x r hr)
+    have hc1 := Labs.head l2 (by rw [hw.sym σ hσ x r hr]; exact Nat.one_pos)
     have hmem : r.children.head! ∈ r.children := by
       have := hw.sym σ hσ x r hr
       cases hch : r.children with
